@@ -23,7 +23,7 @@ for d in sorted(glob.glob(os.path.join(HERE, "seeded", "*"))):
         if line:
             break
     first = m.get("first_round", "")
-    rows.append((os.path.basename(d), m.get("summary", "").replace("|", "/")[:170], str(m.get("needs", "")).replace("|", "/")[:200], verdict, line, first))
+    rows.append((os.path.basename(d), m.get("summary", "").replace("|", "/")[:120], str(m.get("needs", "")).replace("|", "/")[:130], verdict, line, first))
 print("| id | change | needs, in order to manifest | verdict of the registered quick check | caught by (sub-check / kind) | first round |")
 print("|---|---|---|---|---|---|")
 for r in rows:
